@@ -369,9 +369,35 @@ func main() {
 				jb, _ := json.Marshal(rf)
 				os.WriteFile(tmp, jb, 0o644)
 				iso := filepath.Join(outDir, fmt.Sprintf("isolate-%d.cur", w))
-				rr := runReplay(tmp, knownPath, iso, false)
+				rr := runReplay(tmp, knownPath, iso, true)
 				lb, _ := os.ReadFile(iso)
 				label := strings.TrimSpace(string(lb))
+				if rr.exit == 0 {
+					// alone in a fresh process the run survives (the worker died of what had piled up, e.g. many huge
+					// allocations before a collection): what the run itself reports is the finding
+					took := false
+					for _, l := range strings.Split(rr.output, "\n") {
+						if !strings.HasPrefix(l, "FINDING ") {
+							continue
+						}
+						kd := strings.SplitN(strings.TrimPrefix(l, "FINDING "), " :: ", 2)
+						key := kd[0]
+						if _, ok := known[key]; ok || !strings.HasPrefix(key, prop+"|") || seenKey[key] {
+							continue
+						}
+						seenKey[key] = true
+						rf.Key = key
+						if len(kd) > 1 {
+							rf.Detail = kd[1] + " (the worker process that met this run first died; re-run alone in a fresh process the run reports this)"
+						}
+						violations = append(violations, rf)
+						took = true
+						break
+					}
+					if took {
+						continue
+					}
+				}
 				if strings.Contains(rr.output, "HARNESS PANIC") || strings.Contains(results[w].out, "HARNESS PANIC") {
 					trouble = fmt.Sprintf("worker %d: the harness itself panicked: %s", w, tail(results[w].out+rr.output, 1200))
 					continue
